@@ -11,12 +11,24 @@ import signal
 import tempfile
 
 from harness import engine
+import re
+
 from harness.core import Prop
 
 SQL = {"ct1": "create table t1 (a varchar(5)) comment = 'c1'", "ct2": "create table t2 (a varchar)", "cr1": "create or replace table t1 (a varchar(5)) comment = 'c1'", "i1": "insert into t1 values ('x')",
        "i2": "insert into t2 values ('y')", "cm1": "comment on table t1 is 'c2'", "dt1": "drop table if exists t1", "begin": "begin",
        "commit": "commit", "rollback": "rollback"}
 NOTAB = {"e": False, "n": 0, "c": "", "l": 0}
+# how the behaviour spells the table t1 and its column: unquoted (folded to upper case), or double-quoted in lower case - the name
+# under which the metadata is recorded is then not an upper-case one.  The driver's choice per behaviour, set before the fork.
+_QUOTED = [False]
+
+
+def sql_of(s: str) -> str:
+    q = SQL[s]
+    if _QUOTED[0]:
+        q = re.sub(r"\bt1\b", '"t1"', q).replace("(a varchar(5))", '("a" varchar(5))')
+    return q
 
 
 def first_process(path, stmts, how, at, progress, dbname="D1"):
@@ -43,7 +55,7 @@ def first_process(path, stmts, how, at, progress, dbname="D1"):
         cur = conn.cursor()
         for j, s in enumerate(stmts, 1):
             try:
-                (cur if j % 2 else conn.cursor()).execute(SQL[s])
+                (cur if j % 2 else conn.cursor()).execute(sql_of(s))
             except Exception:
                 pass
             note(j)
@@ -61,7 +73,7 @@ def first_process(path, stmts, how, at, progress, dbname="D1"):
                 note(0)
                 for j, s in enumerate(stmts[:at], 1):
                     try:
-                        conn.cursor().execute(SQL[s])
+                        conn.cursor().execute(sql_of(s))
                     except Exception:
                         pass
                     note(j)
@@ -72,7 +84,7 @@ def first_process(path, stmts, how, at, progress, dbname="D1"):
             conn2 = snowflake.connector.connect(database=dbname, schema="S1")
             for j, s in enumerate(stmts[at:], at + 1):
                 try:
-                    conn2.cursor().execute(SQL[s])
+                    conn2.cursor().execute(sql_of(s))
                 except Exception:
                     pass
                 note(j)
@@ -92,7 +104,7 @@ def first_process(path, stmts, how, at, progress, dbname="D1"):
                 cur = conn.cursor()
                 for j, s in enumerate(stmts, 1):
                     try:
-                        cur.execute(SQL[s])
+                        cur.execute(sql_of(s))
                     except Exception:
                         pass
                     note(j)
@@ -112,12 +124,14 @@ def read_back(path, storage, dbname="D1"):
         conn = fs.connect(dbname, "S1")
         cur = conn.cursor()
         for t in ("t1", "t2"):
+            quoted = _QUOTED[0] and t == "t1"
+            ref, stored, col = ('"t1"', "t1", "a") if quoted else (t, t.upper(), "A")
             try:
-                n = cur.execute(f"select count(*) from {t}").fetchall()[0][0]
+                n = cur.execute(f"select count(*) from {ref}").fetchall()[0][0]
             except Exception:
                 continue
-            c = cur.execute(f"select comment from information_schema.tables where table_schema = 'S1' and table_name = '{t.upper()}'").fetchall()
-            ln = cur.execute(f"select character_maximum_length from information_schema.columns where table_schema = 'S1' and table_name = '{t.upper()}' and column_name = 'A'").fetchall()
+            c = cur.execute(f"select comment from information_schema.tables where table_schema = 'S1' and table_name = '{stored}'").fetchall()
+            ln = cur.execute(f"select character_maximum_length from information_schema.columns where table_schema = 'S1' and table_name = '{stored}' and column_name = '{col}'").fetchall()
             rec[t] = {"e": True, "n": int(n), "c": (c[0][0] if c and c[0][0] is not None else ""), "l": int(ln[0][0]) if ln and ln[0][0] is not None else 0}
         rec["use"] = use_it(cur)
     except Exception as e:
@@ -194,6 +208,8 @@ class C18(Prop):
     def drive(self, ops, rng):
         ev = []
         for op in ops:
+            _QUOTED[0] = rng.random() < 0.4
+            op = dict(op, quoted=_QUOTED[0])
             tmp = tempfile.mkdtemp(prefix="fs18-")
             try:
                 path = os.path.join(tmp, "dbs")
@@ -207,7 +223,7 @@ class C18(Prop):
                     cur = fs.connect("D1", "S1").cursor()
                     for s in op["stmts"]:
                         try:
-                            cur.execute(SQL[s])
+                            cur.execute(sql_of(s))
                         except Exception:
                             pass
                     rec = read_back(None, "memory")
